@@ -18,12 +18,15 @@ import (
 // ---------------------------------------------------------------------------
 
 type exprNode struct {
-	Op string    `json:"op"`
-	I  int       `json:"i"`
-	L  *exprNode `json:"l"`
-	R  *exprNode `json:"r"`
-	R2 *exprNode `json:"r2"`
-	C  *exprNode `json:"c"`
+	Cmp string    `json:"cmp"`
+	W   string    `json:"w"`
+	Neg bool      `json:"neg"`
+	Op  string    `json:"op"`
+	I   int       `json:"i"`
+	L   *exprNode `json:"l"`
+	R   *exprNode `json:"r"`
+	R2  *exprNode `json:"r2"`
+	C   *exprNode `json:"c"`
 }
 
 type exprCase struct {
@@ -48,7 +51,7 @@ func exprPrec(n *exprNode) int {
 		return 8
 	case "+", "-":
 		return 7
-	case "=", "<>", "<", "<=", ">", ">=", "isnull", "isnotnull", "between", "notbetween", "in", "notin":
+	case "=", "<>", "<", "<=", ">", ">=", "isnull", "isnotnull", "between", "notbetween", "in", "notin", "any", "all", "ister":
 		return 5
 	case "NOT":
 		return 4
@@ -112,6 +115,15 @@ func exprText(n *exprNode, style string) string {
 			kw = " NOT IN ("
 		}
 		return operand(n.L, 6) + kw + exprText(n.R, style) + ", " + exprText(n.R2, style) + ")"
+	case "any", "all":
+		return operand(n.L, 6) + " " + n.Cmp + " " + strings.ToUpper(n.Op) + " (SELECT " + exprText(n.R, style) + " UNION ALL SELECT " + exprText(n.R2, style) + ")"
+	case "ister":
+		w := map[string]string{"T": "TRUE", "F": "FALSE", "U": "UNKNOWN"}[n.W]
+		if n.Neg {
+			w = "NOT " + w
+		}
+		// IS binds like a comparison (non-associative): a comparison operand needs parentheses
+		return operand(n.L, 6) + " IS " + w
 	case "NOT":
 		return "NOT " + operand(n.L, 4)
 	case "case":
